@@ -98,6 +98,16 @@ inductive InsRes (K V : Type) where
   /-- the Go code would dereference a nil child (ill-formed tree) -/
   | crash
 
+/-- first `i` in `[i₀, i₀ + fuel)` with `p i` -/
+def firstIdx (p : Nat → Bool) : Nat → Nat → Option Nat
+  | 0, _ => none
+  | fuel + 1, i => if p i then some i else firstIdx p fuel (i + 1)
+
+/-- the amalgam position at which `amalgam1.Child` hands out the extra child (`afterK`), given
+`extraIdx = e`: the first `i ≤ e + 1` that satisfies the generated test `i == a.extraIdx+1`. `none`:
+the extra child is never handed out. -/
+def extraChildPos (e : Nat) : Option Nat := firstIdx (fun i => amalgamExtraChildIdx i e) (e + 2) 0
+
 /-- one round of `overfill`'s loop on the full node `(id, kvs, kids)`: build the amalgam with the
 extra entry `kv` and its right child `afterK`, cut it at `medianIdx`. -/
 def overfillNode (cmp : K → K → Int) (id : Nat) (kvs : List (K × V)) (kids : List (Node K V))
@@ -106,7 +116,10 @@ def overfillNode (cmp : K → K → Int) (id : Nat) (kvs : List (K × V)) (kids 
   let all := insertAt kvs e kv
   let allKids := match afterK with
     | none => kids
-    | some r => insertAt kids (e + 1) r
+    | some r =>
+      match extraChildPos e with
+      | some p => insertAt kids p r
+      | none => kids
   let sep := all.getD medianIdx.toNat kv
   let left := Node.mk id (all.take leftN.toNat) (allKids.take (leftN.toNat + 1))
   let right := Node.mk fresh ((all.drop (rightFirstIdx 0).toNat).take rightN.toNat)
@@ -268,6 +281,30 @@ def mergeAt (kvs : List (K × V)) (kids : List (Node K V)) (a : Nat) :
           kids.take a ++ .mk li (lkvs ++ sep :: rkvs) (lkids ++ rkids) :: kidsAfter)
   | _, _ => none
 
+/-- position among the parent's children of a node variable of `steal` / `merge`, `x` being child `j` -/
+def argIdx (j : Nat) : NodeArg → Nat
+  | .x => j
+  | .left => j - 1
+  | .right => j + 1
+
+/-- execute the call `t.rotateLeft(a, b)` / `t.rotateRight(a, b)` / `t.mergeTwo(a, b)` that the generated
+fact says `steal` / `merge` make for the underfull child `j`. All three helpers assume that `a` is the
+immediate left sibling of `b` (they locate the separator by `xslices.Index(parent.children, ·)` of one
+of the two); a call on any other pair of nodes, or a statement list of another shape (`none`), cannot
+be followed by this model: `none`. The third component is `some a` when children `a`, `a+1` were merged. -/
+def repairCall (call : Option (Callee × NodeArg × NodeArg)) (kvs : List (K × V)) (kids : List (Node K V)) (j : Nat) :
+    Option (List (K × V) × List (Node K V) × Option Nat) :=
+  match call with
+  | none => none
+  | some (f, a, b) =>
+    let ia := argIdx j a
+    if argIdx j b = ia + 1 then
+      match f with
+      | .rotateLeft => (rotateLeftAt kvs kids ia).map fun r => (r.1, r.2, none)
+      | .rotateRight => (rotateRightAt kvs kids ia).map fun r => (r.1, r.2, none)
+      | .mergeTwo => (mergeAt kvs kids ia).map fun r => (r.1, r.2, some ia)
+    else none
+
 /-- Child `j` of the node `(kvs, kids)` is underfull: `steal` (right sibling first, then left), else
 `merge` (into the left sibling if it exists and has `n <= minKVs`, else with the right one).
 Result: new `kvs`, `kids`, and `some a` if children `a`,`a+1` were merged into child `a`.
@@ -279,16 +316,13 @@ def fixChild (kvs : List (K × V)) (kids : List (Node K V)) (j : Nat) :
   let right? : Option (Node K V) := if hasRightSibling j pn then kids[(rightSiblingIdx j).toNat]? else none
   let ln : Int := match left? with | some l => l.n | none => 0
   let rn : Int := match right? with | some r => r.n | none => 0
-  if stealRight right?.isSome rn then
-    (rotateLeftAt kvs kids j).map fun r => (r.1, r.2, none)
-  else if stealLeft left?.isSome ln then
-    (rotateRightAt kvs kids (j - 1)).map fun r => (r.1, r.2, none)
-  else if mergeIntoLeft left?.isSome ln then
-    (mergeAt kvs kids (j - 1)).map fun r => (r.1, r.2, some (j - 1))
+  if stealRight right?.isSome rn then repairCall stealRightCall kvs kids j
+  else if stealLeft left?.isSome ln then repairCall stealLeftCall kvs kids j
+  else if mergeIntoLeft left?.isSome ln then repairCall mergeLeftCall kvs kids j
   else
     match right? with
     | none => none
-    | some _ => (mergeAt kvs kids j).map fun r => (r.1, r.2, some j)
+    | some _ => repairCall mergeRightCall kvs kids j
 
 inductive DelRes (K V : Type) where
   /-- the key is not in the subtree: nothing changes -/
@@ -307,9 +341,11 @@ def finish (rootId id : Nat) (kvs : List (K × V)) (kids : List (Node K V)) (j :
   | some (kvs', kids', some a) =>
     if mergeRootCheck id rootId then
       if mergeRootEmpty kvs'.length then
-        match kids'[a]? with
-        | some l => .done l false
-        | none => .crash
+        if mergeCollapseSetsRoot then
+          match kids'[a]? with
+          | some l => .done l false
+          | none => .crash
+        else .done (.mk id kvs' kids') false
       else .done (.mk id kvs' kids') false
     else .done (.mk id kvs' kids') (mergeCascades kvs'.length false)
 
@@ -386,7 +422,10 @@ decreasing_by
 /-- `btree.Delete`; `none` = nil dereference (ill-formed tree only). -/
 def delete (cmp : K → K → Int) (t : Tree K V) (k : K) : Option (Tree K V) :=
   match del cmp k t.root.id t.root with
-  | .absent => some t
+  | .absent =>
+    -- `if curr.leaf() { return }` before `t.size--; t.gen++`; without that `return` the loop goes on
+    -- into `curr.children[idx]` of a leaf: nil dereference
+    if deleteMissReturnsFirst then some t else none
   | .crash => none
   | .done r _ =>
     some { root := r, size := if deleteDecSize then t.size - 1 else t.size,
